@@ -176,6 +176,32 @@ CORPUS = [
 ]
 
 
+def gen_diseq_boundary(rng, n):
+    """scripted histories on the case split of disequality lowering: a two-variable disequality
+    s*a - s*b + k != 0 whose excluded line touches a corner of the box of (a, b)"""
+    out = []
+    for _ in range(n):
+        nv = rng.choice([2, 3])
+        a, b = sorted(rng.sample(range(nv), 2))
+        lo = rng.randint(-6, 4); hi = lo + rng.randint(1, 4)
+        c = rng.randint(-4, 4)
+        ops = ["assume 0 2 C le E 1 -1 %d %d C le E 1 1 %d %d" % (a, lo, a, -hi)]
+        if rng.random() < 0.6:
+            ops.append("assign 0 %d E 0 %d" % (b, c)); blo = bhi = c
+        else:
+            blo = c; bhi = c + rng.randint(0, 2)
+            ops.append("assume 0 2 C le E 1 -1 %d %d C le E 1 1 %d %d" % (b, blo, b, -bhi))
+        if rng.random() < 0.5:
+            ops.reverse()
+        sg = rng.choice([1, -1])
+        corner = rng.choice([hi - blo, lo - bhi, hi - bhi, lo - blo]) + rng.choice([0, 0, 0, 1, -1])
+        k = rng.choice([1, -1]) * corner          # right and wrong sign of the constant
+        ops.append("assume 0 1 C ne E 2 %d %d %d %d %d" % (sg, a, -sg, b, k))
+        ops.append("q_at 0")
+        out.append("hist 2 %d ; %s" % (nv, " ; ".join(ops)))
+    return out
+
+
 def gen(seed, tier, opts=None, n=None):
     rng = random.Random(seed)
     opts = dict(opts or {})
